@@ -21,9 +21,6 @@ pub broadcast axiom fn axiom_mk_record(ps: Seq<(SmolStr, ValueKind)>)
         forall|a: SmolStr| #![trigger mk_record(ps)->Record_0@.contains_key(a)] mk_record(ps)->Record_0@.contains_key(a) <==> exists|i: int| 0 <= i < ps.len() && (#[trigger] ps[i]).0 == a,
         forall|i: int| 0 <= i < ps.len() ==> mk_record(ps)->Record_0@[(#[trigger] ps[i]).0].value == ps[i].1;
 
-/// assumed: `Expr::is_projectable` (`subexpressions().all(Lit | Unknown | Set | Var | Record)`) is the recursive predicate
-pub broadcast axiom fn axiom_projectable(e: Expr)
-    ensures #[trigger] e.spec_projectable() == projectable(e);
 /// assumed: a residual an extension function returns (the `unknown` constructor) carries no type annotation and is not a record literal
 pub broadcast axiom fn axiom_ext_residual(x: Expr)
     requires #[trigger] ext_residual(x)
@@ -612,4 +609,43 @@ pub proof fn lemma_attr_unknown(ev: &Evaluator<'_>, slots: SlotEnv, ev2: &Evalua
     let ent = ev.spec_entities().spec_entity(uid)->Some_0;
     assert(entity_kinds_ok(ev2, ent));
     assert(pv_kinds_ok(ev2, ent.spec_attrs()[attr]));
+}
+
+// ---- Expr::is_projectable ----
+/// the node kinds `is_projectable` accepts
+pub open spec fn proj_kind(k: ExprKind) -> bool { k is Lit || k is Unknown || k is Set || k is Var || k is Record }
+/// "every node of the tree is of an accepted kind" is the recursive predicate projectable()
+pub proof fn lemma_projectable_subs(e: Expr)
+    ensures projectable(e) <==> forall|x: Expr| is_sub(x, e) ==> proj_kind(#[trigger] x.expr_kind)
+    decreases e
+{
+    if projectable(e) {
+        assert forall|x: Expr| is_sub(x, e) implies proj_kind(#[trigger] x.expr_kind) by {
+            if x != e {
+                match e.expr_kind {
+                    ExprKind::Set(items) => { let i = choose|i: int| 0 <= i < items@.len() && is_sub(x, #[trigger] items@[i]); lemma_projectable_subs(items@[i]); },
+                    ExprKind::Record(m) => { let k = choose|k: SmolStr| m@.contains_key(k) && is_sub(x, #[trigger] m@[k]); lemma_projectable_subs(m@[k]); },
+                    _ => {},
+                }
+            }
+        }
+    }
+    if forall|x: Expr| is_sub(x, e) ==> proj_kind(#[trigger] x.expr_kind) {
+        assert(is_sub(e, e));
+        match e.expr_kind {
+            ExprKind::Set(items) => {
+                assert forall|i: int| 0 <= i < items@.len() implies projectable(#[trigger] items@[i]) by {
+                    lemma_projectable_subs(items@[i]);
+                    assert forall|x: Expr| is_sub(x, items@[i]) implies proj_kind(#[trigger] x.expr_kind) by { assert(is_sub(x, e)); }
+                }
+            },
+            ExprKind::Record(m) => {
+                assert forall|k: SmolStr| m@.contains_key(k) implies projectable(#[trigger] m@[k]) by {
+                    lemma_projectable_subs(m@[k]);
+                    assert forall|x: Expr| is_sub(x, m@[k]) implies proj_kind(#[trigger] x.expr_kind) by { assert(is_sub(x, e)); }
+                }
+            },
+            _ => {},
+        }
+    }
 }
